@@ -50,4 +50,14 @@ theorem discipline_manager :
       | none => false)) = true := by
   decide +kernel
 
+/-- memoised and cached state is also only READ with its mutex held: the transaction hash memo (no
+    lock-free fast path), every field of the head cache in `get`, a segment's `done`/`d`/`nreads`
+    under the segment mutex and the segment map under the cache mutex -/
+theorem discipline_reads :
+    (guardedReads "eth.Tx.Hash" ["tx.PrecompHash"] "tx.cacheMut" &&
+     guardedReads "jrpc2.NumHash.get" ["nh."] "nh" &&
+     guardedReads "jrpc2.cache.get" ["seg."] "seg" &&
+     guardedReads "jrpc2.cache.get" ["c.segments"] "c") = true := by
+  decide +kernel
+
 end Shovel.Race
